@@ -283,6 +283,8 @@ func (d *db) close() error {
 
 	var err error
 	err = firstError(err, d.mu.logWriter.close())
+	// the saved index must not refer to records that are not persisted
+	err = firstError(err, d.mu.logFile.Sync())
 	err = firstError(err, d.saveIndex())
 	// Note that versionSet.close() only closes the MANIFEST. The versions list
 	// is still valid for the checks below.
